@@ -71,32 +71,36 @@ def mkrow(E, R, Qmap, rev, ridx, qidx, tag, su):
 
 
 def first_pass_menu(KR, KQ, nrefs=1):
-    """(refIndex, reverse, reference labels, query labels) -- valid matchings"""
-    m = [None,
-         (0, False, [1, 2, 3], [1, 2, 3]),                       # aligned part at the molecule start
-         (0, True, [1, 2, 3], [KQ, KQ - 1, KQ - 2]),             # reverse strand, molecule end on the reference start
-         (0, False, [KR - 2, KR - 1, KR], [KQ - 2, KQ - 1, KQ]),  # aligned part at the molecule end
-         (0, False, [2, 4], [2, 3])]                             # middle, with skipped labels
+    """name -> (refIndex, reverse, reference labels, query labels) -- valid matchings; None = the query does not align"""
+    m = {"none": None,
+         "start+": (0, False, [1, 2, 3], [1, 2, 3]),                       # aligned part at the molecule start
+         "end-": (0, True, [1, 2, 3], [KQ, KQ - 1, KQ - 2]),               # reverse strand, molecule end on the reference start
+         "end+": (0, False, [KR - 2, KR - 1, KR], [KQ - 2, KQ - 1, KQ]),   # aligned part at the molecule end
+         "middle-skip+": (0, False, [2, 4], [2, 3]),                       # middle, with skipped labels
+         "start-gap+": (0, False, [1, 2, 4], [1, 2, 4])}                   # label 3 left unpaired on both maps
     if KQ >= 10:
-        m.append((0, False, [3, 4], [5, 6]))                    # middle of a long molecule: both flanks become fragments
-        m.append((0, True, [3, 4], [6, 5]))
-        m.append((0, False, [2, 3], [3, 4]))                    # near the start: only the right flank is long enough
-        m.append((0, False, [4, 5], [7, 8]))                    # near the end: only the left flank is long enough
+        m["mid-long+"] = (0, False, [3, 4], [5, 6])                        # middle of a long molecule: both flanks become fragments
+        m["mid-long-"] = (0, True, [3, 4], [6, 5])
+        m["near-start+"] = (0, False, [2, 3], [3, 4])                      # only the right flank is long enough
+        m["near-end+"] = (0, False, [4, 5], [7, 8])                        # only the left flank is long enough
     if nrefs > 1:
-        m.append((1, False, [1, 2, 3], [1, 2, 3]))              # on the second reference (last menu entry: index -1)
+        m["ref2-start+"] = (1, False, [1, 2, 3], [1, 2, 3])
     return m
 
 
 def second_pass_menu(KR, KQ, nrefs):
-    m = [None,
-         (0, False, [KR - 1, KR], [KQ - 1, KQ]),          # continuation on the same reference / strand
-         (0, False, [3, 4, 5], [3, 4, 5]),                # overlaps a first-pass row ending at (3,3)
-         (0, True, [KR - 1, KR], [2, 1]),                 # other strand
-         (0, False, [1, 2], [KQ - 1, KQ])]                # same strand, far away / crossing
-    m.append((1, False, [KR - 1, KR], [KQ - 1, KQ]) if nrefs > 1 else None)  # other reference
-    m.append((0, False, [1, 2], [1, 2]))                  # head of the molecule (left fragment)
-    m.append((0, True, [1, 2], [KQ, KQ - 1]))             # reverse strand, tail labels
-    m.append((0, False, [KR - 1, KR], [-2, -1]))          # the fragment's own last two labels (whatever numbers its shift gives them)
+    m = {"none": None,
+         "continue+": (0, False, [KR - 1, KR], [KQ - 1, KQ]),      # continuation on the same reference / strand
+         "overlap+": (0, False, [3, 4, 5], [3, 4, 5]),             # overlaps a first-pass row ending at (3,3)
+         "other-strand": (0, True, [KR - 1, KR], [2, 1]),
+         "far-crossing+": (0, False, [1, 2], [KQ - 1, KQ]),
+         "head+": (0, False, [1, 2], [1, 2]),                      # head of the molecule (left fragment)
+         "tail-": (0, True, [1, 2], [KQ, KQ - 1]),
+         "fragment-tail+": (0, False, [KR - 1, KR], [-2, -1]),     # the fragment's own last two labels (whatever numbers its shift gives)
+         "crossing-shared+": (0, False, [1, 2], [4, 5]),           # crosses a first-pass row (2,3)(3,4) and shares labels with it
+         "overlap-fill+": (0, False, [2, 3, 4, 5], [2, 3, 4, 5])}  # pairs label 3 that 'start-gap+' left unpaired: interior merge point
+    if nrefs > 1:
+        m["ref2+"] = (1, False, [KR - 1, KR], [KQ - 1, KQ])
     return m
 
 
@@ -118,8 +122,8 @@ def build_world(E, cfg):
     E.assume(maxDiff >= 0)
     fp_menu = first_pass_menu(KR, KQ, nrefs)
     sp_menu = second_pass_menu(KR, KQ, nrefs)
-    allowed_f = cfg.get("first", list(range(len(fp_menu))))
-    allowed_s = cfg.get("second", list(range(len(sp_menu))))
+    allowed_f = [n for n in cfg.get("first", list(fp_menu)) if n in fp_menu]
+    allowed_s = [n for n in cfg.get("second", list(sp_menu)) if n in sp_menu]
     first_choice = {}
     for qm in queries:
         first_choice[qm.moleculeId] = fp_menu[E.choose(allowed_f, f"first-pass-row-of-{qm.moleculeId}")]      # index -1 = last entry
@@ -208,7 +212,9 @@ def summary(res):
             out[mode] = ["exception", type(r["exc"]).__name__]
         else:
             out[mode] = {"main": [list(rowkey(x)) + [x.confidence] for x in r["main"]],
-                         "files": {k: [list(rowkey(x)) for x in v] for k, v in sorted(r["files"].items())}}
+                         "files": {k: [list(rowkey(x)) for x in v] for k, v in sorted(r["files"].items())},
+                         "scores": {repr(rowkey(x)): [[p.reference.siteId, p.query.siteId, p.score] for p in x.alignedPairs]
+                                    for x in r["main"] + [y for v in r["files"].values() for y in v]}}
     return out
 
 
@@ -242,13 +248,20 @@ MULTIPASS_BOUNDS = ("1-2 queries of 6 labels and one query of 10 labels (both fl
 
 
 def multipass_configs(tier):
-    cfgs = [dict(KR=6, KQ=6, nq=1, nrefs=1), dict(KR=6, KQ=6, nq=1, nrefs=2, first=[1, 2, 3], second=[0, 1, 5])]
-    cfgs.append(dict(KR=6, KQ=6, nq=2, nrefs=1, first=[0, 1, 2], second=[0, 1, 2]))
-    cfgs.append(dict(KR=6, KQ=10, nq=1, nrefs=1, first=[5, 6, 7, 8], second=[0, 1, 6, 7, 8]))     # 1-2 fragments per query
+    cfgs = [dict(KR=6, KQ=6, nq=1, nrefs=1, first=["none", "start+", "end-", "end+", "middle-skip+"],
+                 second=["none", "continue+", "overlap+", "other-strand", "far-crossing+", "head+", "tail-", "fragment-tail+"]),
+            dict(KR=6, KQ=6, nq=1, nrefs=1, first=["start-gap+"], second=["none", "overlap-fill+", "overlap+"]),
+            dict(KR=6, KQ=6, nq=1, nrefs=2, first=["start+", "end-", "end+"], second=["none", "continue+", "ref2+"])]
+    cfgs.append(dict(KR=6, KQ=6, nq=2, nrefs=1, first=["none", "start+", "end-"], second=["none", "continue+", "overlap+"]))
+    # long molecule: one or two fragments per query, crossing second-pass records
+    cfgs.append(dict(KR=6, KQ=10, nq=1, nrefs=1, first=["mid-long+", "mid-long-", "near-start+", "near-end+"],
+                     second=["none", "continue+", "head+", "tail-", "fragment-tail+", "crossing-shared+"]))
     if tier != "quick":
-        cfgs.append(dict(KR=6, KQ=6, nq=2, nrefs=1, first=[0, 1, 3, 4], second=[0, 1, 2, 4], swap_ids=True))
+        cfgs.append(dict(KR=6, KQ=6, nq=2, nrefs=1, first=["none", "start+", "end+", "middle-skip+", "start-gap+"],
+                         second=["none", "continue+", "overlap+", "far-crossing+", "overlap-fill+"], swap_ids=True))
         cfgs.append(dict(KR=6, KQ=9, nq=1, nrefs=1))
-        cfgs.append(dict(KR=6, KQ=6, nq=2, nrefs=2, first=[1, 2], second=[0, 1, 3, 5]))
+        cfgs.append(dict(KR=6, KQ=10, nq=1, nrefs=1))
+        cfgs.append(dict(KR=6, KQ=6, nq=2, nrefs=2, first=["start+", "end-", "ref2-start+"], second=["none", "continue+", "other-strand", "ref2+"]))
     return cfgs
 
 
@@ -417,6 +430,46 @@ def oracle_c07(E, world, res):
     E.check("checked", True)
 
 
+def classify_c08(cfg, snap, failures, out):
+    """Known finding 'join-keeps-higher-scoring-cut-over-union': the only failing clause is 'joined == union when the union is valid', every
+    joined record is still a subset of the union, and its Confidence is at least that of the union-preserving alternative (all pairs of
+    the earlier part that lie strictly before the later part's first pair, plus the whole later part) -- i.e. the merge-point rule
+    preferred a higher-scoring cut to the union.  Anything else (a joined record scoring *less* than the union-preserving join,
+    other clauses) is not this finding."""
+    from fractions import Fraction
+    if set(failures) != {"when-the-union-is-a-valid-matching-the-joined-record-is-exactly-the-union"}:
+        return None
+    try:
+        J, S = out["joined"], out["separate"]
+        first, second = S["main"], S["files"].get("_1", [])
+        sc = dict(S["scores"])
+        sc.update(out["all"]["scores"])
+        num = lambda v: Fraction(v) if isinstance(v, str) else Fraction(v)
+        for j in J["main"]:
+            key3 = tuple(j[:3])
+            fs = [f for f in first if tuple(f[:3]) == key3]
+            ss = [x for x in second if tuple(x[:3]) == key3]
+            if len(fs) != 1 or len(ss) != 1:
+                return None
+            f, x = fs[0], ss[0]
+            pf = sc[repr(tuple(f[:4]) + (tuple(tuple(p) for p in f[4]),))]
+            px = sc[repr(tuple(x[:4]) + (tuple(tuple(p) for p in x[4]),))]
+            jp = [tuple(p) for p in j[4]]
+            union = sorted({tuple(p[:2]) for p in pf} | {tuple(p[:2]) for p in px})
+            if sorted(jp) == union:
+                continue
+            left, right = (pf, px) if pf[0][0] <= px[0][0] else (px, pf)
+            rev = j[2] == "-"
+            r0, q0 = right[0][0], right[0][1]
+            before = [p for p in left if p[0] < r0 and ((p[1] > q0) if rev else (p[1] < q0))]
+            alt = sum((num(p[2]) for p in before), Fraction(0)) + sum((num(p[2]) for p in right), Fraction(0))
+            if num(j[5]) < alt:
+                return None
+        return "join-keeps-higher-scoring-cut-over-union"
+    except Exception:  # noqa
+        return None
+
+
 MP_ORACLES = {"C01": oracle_c01, "C03": oracle_c03, "C04": oracle_c04, "C05": oracle_c05, "C07": oracle_c07, "C08": oracle_c08}
 
 
@@ -437,6 +490,7 @@ def make_body(prop):
 
 def multipass_unit(prop):
     return Unit(name="multipass-modes", body=make_body(prop), configs=multipass_configs, functions=MULTIPASS_FUNCTIONS,
+                classify=classify_c08 if prop == "C08" else None,
                 bounds=MULTIPASS_BOUNDS, stubs=MULTIPASS_STUBS,
                 shard_depth=lambda cfg, tier: 10,
                 nontrivial_rule="at least one record is written in some mode",
